@@ -42,7 +42,7 @@ type encoder struct {
 // ChecksumRegistered says which algorithm names the harness runtimes register.
 func ChecksumRegistered(name string) bool {
 	switch name {
-	case "SUMU8", "SUMU16", "SUMU32", "SUMU64", "SUMI8", "SUMI16", "SUMI32", "SUMI64", "CRC32":
+	case "SUMU8", "SUMU16", "SUMU32", "SUMU64", "SUMI8", "SUMI16", "SUMI32", "SUMI64", "CRC32", "SumU32Mx", "sumu16lc":
 		return true
 	}
 	return false
